@@ -118,12 +118,15 @@ def bonds_table(n, edges, pos, factor=None, order_rng=None):
 
 def execute(trace, ctx):
     m = trace["mode"]
-    if m == "enum_trees":
-        return exec_enum_trees(trace, ctx)
-    if m == "random_graph":
-        return exec_random_graph(trace, ctx)
-    if m == "chi2":
-        return exec_chi2(trace, ctx)
+    if m in ("enum_trees", "random_graph", "chi2"):
+        fn = {"enum_trees": exec_enum_trees, "random_graph": exec_random_graph, "chi2": exec_chi2}[m]
+        if trace["seed"] % 5 == 3:
+            import warnings
+            ctx.probe("numpy_errors_raised_and_warnings_as_errors")
+            with np.errstate(all="raise"), warnings.catch_warnings():
+                warnings.simplefilter("error")
+                return fn(trace, ctx)
+        return fn(trace, ctx)
     if m in ("rotations", "frames") or m not in ("enum_trees", "random_graph", "chi2"):
         fn = exec_rotations if m == "rotations" else exec_frames
         if trace["seed"] % 3 == 2:
